@@ -8,7 +8,7 @@ From OV.proofs Require Import L_C20 L_C20w.
 Import ListNotations.
 
 (* NOT PROVED (false of the faithful model, see the three ..._refuted theorems):
-     forall w, wf_writer w -> in_range w -> no_user_sphere_radius w ->
+     forall w, wf_writer w -> in_range w ->
        parse (fst (write w)) = Some (abstract w) /\ check (abstract w) = true
        /\ forall n o, In o (writes n w) -> o = fst (write w).
    The theorems below carry exactly the extra hypotheses under which the model of the current code satisfies it:
@@ -17,9 +17,9 @@ Import ListNotations.
 
 (* the file parses, with an independent strict reader, to exactly the supplied dataset, and that dataset is consistent *)
 Theorem C20_roundtrip_wellformed_partial : forall w,
-  wf_writer w -> in_range w -> all_nodes_written_if_spheres w -> no_cell_data_with_edges w -> no_user_sphere_radius w ->
+  wf_writer w -> in_range w -> all_nodes_written_if_spheres w -> no_cell_data_with_edges w ->
   parse (fst (write w)) = Some (abstract w) /\ check (abstract w) = true.
-Proof. intros w H1 H2 H3 H4 H5. split; [exact (parse_write w H1 H3 H4 H5) | exact (check_abstract w H1 H2)]. Qed.
+Proof. intros w H1 H2 H3 H4. split; [exact (parse_write w H1 H3 H4) | exact (check_abstract w H1 H2)]. Qed.
 
 (* what the consistency check says: declared counts equal the records read, connectivity refers to read points, every
    array has exactly one record per point / per cell *)
@@ -45,6 +45,10 @@ Proof. exact add_sphere_wf. Qed.
 Theorem C20_add_contact_edges_wf : forall w es, wf_writer w -> wf_writer (add_contact_edges w es).
 Proof. exact add_contact_edges_wf. Qed.
 
+Theorem C20_write_wf_partial : forall w,
+  wf_writer w -> w_spheres w = [] \/ only_sphere_radius w -> wf_writer (snd (write w)).
+Proof. exact write_wf. Qed.
+
 (* repeated writes *)
 Theorem C20_write_keeps_state_without_spheres : forall w, w_spheres w = [] -> snd (write w) = w.
 Proof. exact write_no_spheres. Qed.
@@ -57,7 +61,7 @@ Proof. exact repeated_writes. Qed.
 Theorem C20_double_write_refuted :
   exists w0 w1, init m1 = Some w0 /\ add_nodal_field w0 1 [[q 5]; [q 6]; [q 7]] SCALARS DOUBLE = Some w1 /\
   let w := add_sphere w1 (q 2) (q 2) (q 1) in
-  (wf_writer w /\ in_range w /\ all_nodes_written_if_spheres w /\ no_cell_data_with_edges w /\ no_user_sphere_radius w)
+  (wf_writer w /\ in_range w /\ all_nodes_written_if_spheres w /\ no_cell_data_with_edges w)
   /\ parse (fst (write w)) = Some (abstract w)
   /\ fst (write (snd (write w))) <> fst (write w)
   /\ parse (fst (write (snd (write w)))) = None
@@ -66,14 +70,14 @@ Proof. exact double_write_witness. Qed.
 Theorem C20_sphere_radius_count_refuted :
   exists w0, init m3 = Some w0 /\
   let w := add_sphere w0 (q 1) (q 1) (q 1) in
-  (wf_writer w /\ in_range w /\ no_cell_data_with_edges w /\ no_user_sphere_radius w /\ w_nall w <> length (w_points w))
+  (wf_writer w /\ in_range w /\ no_cell_data_with_edges w /\ w_nall w <> length (w_points w))
   /\ exists d n arrs, parse (fst (write w)) = Some d /\ d_pd d = Some (n, arrs) /\ length (d_pts d) = 4 /\ n = 11
                       /\ c_pd d = false /\ check d = false.
 Proof. exact sphere_radius_count_witness. Qed.
 Theorem C20_cell_data_count_refuted :
   exists w0 w1, init m1 = Some w0 /\ add_cell_field w0 1 [[q 5]] SCALARS INT = Some w1 /\
   let w := add_contact_edges w1 [(0, 1)] in
-  (wf_writer w /\ in_range w /\ all_nodes_written_if_spheres w /\ no_user_sphere_radius w)
+  (wf_writer w /\ in_range w /\ all_nodes_written_if_spheres w)
   /\ exists d n arrs, parse (fst (write w)) = Some d /\ d_cd d = Some (n, arrs) /\ length (d_cells d) = 2 /\ n = 1
                       /\ c_cd d = false /\ check d = false.
 Proof. exact cell_data_count_witness. Qed.
@@ -83,7 +87,7 @@ Example C20_nonvacuous_fields :
   exists w0 w1 w2, init m1 = Some w0
   /\ add_nodal_field w0 1 [[q 1; q 2; q 3; q 4]; [q 5; q 6; q 7; q 8]; [q 9; q 1; q 2; q 3]] TENSORS FLOAT = Some w1
   /\ add_cell_field w1 2 [[q 1; q 2]] VECTORS INT = Some w2
-  /\ (wf_writer w2 /\ in_range w2 /\ all_nodes_written_if_spheres w2 /\ no_cell_data_with_edges w2 /\ no_user_sphere_radius w2)
+  /\ (wf_writer w2 /\ in_range w2 /\ all_nodes_written_if_spheres w2 /\ no_cell_data_with_edges w2)
   /\ parse (fst (write w2)) = Some (abstract w2) /\ check (abstract w2) = true.
 Proof. exact nonvacuous_a. Qed.
 Example C20_nonvacuous_sphere_edge :
@@ -91,7 +95,7 @@ Example C20_nonvacuous_sphere_edge :
   /\ add_nodal_field w0 1 [[q 1; q 2]; [q 5; q 6]; [q 9; q 1]] VECTORS DOUBLE = Some w1
   /\ let w := add_contact_edges (add_sphere w1 (q 2) (q 2) (q 1)) [(0, 3)] in
      (w_spheres w <> [] /\ w_edges w <> [] /\ w_nodal w <> [])
-  /\ (wf_writer w /\ in_range w /\ all_nodes_written_if_spheres w /\ no_cell_data_with_edges w /\ no_user_sphere_radius w)
+  /\ (wf_writer w /\ in_range w /\ all_nodes_written_if_spheres w /\ no_cell_data_with_edges w)
   /\ parse (fst (write w)) = Some (abstract w) /\ check (abstract w) = true.
 Proof. exact nonvacuous_b. Qed.
 
